@@ -58,6 +58,10 @@ type Prog struct {
 	// scheduler step budget of a run (0 = default); cyclic programs get a budget of a few times
 	// what MaximumTaskCall calls can print, so a cycle the call limit no longer ends is noticed
 	maxSteps int
+	// flat rendering (cyclic programs run through the CLI): call names do not carry the call path
+	// (which would grow with every round of the cycle); a depth counter D is passed along instead,
+	// so every round still calls with different variable values
+	flat bool
 }
 
 func okGuards() Guards { return Guards{Platform: true, Required: true, Enum: true} }
@@ -355,6 +359,9 @@ func (p *Prog) calleeName(from int, m int, t int, v string) string {
 
 // the path expression a task uses for itself and for its children
 func (p *Prog) selfPathExpr(i int) string {
+	if p.flat {
+		return "d{{default 0 .D}}"
+	}
 	if p.Tasks[i].Run == "when_changed" {
 		// must not depend on the caller: the structural hash covers command texts and call targets
 		return fmt.Sprintf("K%dv{{.V}}", i)
@@ -366,6 +373,12 @@ func (p *Prog) callYAML(from int, m int, c Call) map[string]any {
 	v := "{{.V}}"
 	if c.Var != nil {
 		v = fmt.Sprint(*c.Var)
+	}
+	if p.flat {
+		return map[string]any{
+			"task": fmt.Sprintf("t%d:w-x", c.Task),
+			"vars": map[string]any{"V": v, "D": "{{add (default 0 .D) 1}}"},
+		}
 	}
 	return map[string]any{
 		"task": p.calleeName(from, m, c.Task, v),
@@ -492,6 +505,9 @@ func pathStr(path []int) string {
 
 func (p *Prog) rootName(k int) string {
 	rc := p.Cfg.Roots[k]
+	if p.flat {
+		return fmt.Sprintf("t%d:w-x", rc.Task)
+	}
 	if p.Tasks[rc.Task].Run == "when_changed" {
 		return fmt.Sprintf("t%d:w-K%dv%d", rc.Task, rc.Task, *rc.Var)
 	}
